@@ -33,7 +33,7 @@ Corr(t, refs, gv, ts, cond, gen) ==
      aliases |-> (IF \A a \in 1..Len(GroupVariants[gv].aliases) : \A m \in 1..Len(GroupVariants[gv].aliases[a].map) :
                         \E i \in 1..Len(refs) : refs[i] = GroupVariants[gv].aliases[a].map[m][1]
                   THEN GroupVariants[gv].aliases ELSE <<>>),
-     ts |-> ts, cond |-> cond, generate |-> gen]
+     ts |-> ts, cond |-> cond, generate |-> gen, explicit |-> FALSE]
 \* (A) every type x operator x unit, the other dimensions chosen by index
 CasesA == {[c |-> Corr(t, RefSets[((t + o + u) % 8) + 1], ((t + u) % 4) + 1, [count |-> Counts[((o + u) % 3) + 1], unit |-> Units[u]],
                        Cond("basic", Ops[o], Counts[((t + o) % 3) + 1], NeedsField(t), t = 7, <<>>), (t + o) % 2 = 0),
@@ -68,7 +68,12 @@ RefsOf(a) == IF \E i \in 1..1 : a = CNot(CNot(CId(r1))) THEN <<1>>
              ELSE IF a = CBin("cor", CId(r4), CBin("cand", CNot(CId(r2)), CId(r1))) THEN <<4, 2, 1>> ELSE <<1, 2>>
 CasesC == {[c |-> Corr(t, RefsOf(a), 2, [count |-> 5, unit |-> 109], Cond("ext", "gte", 1, FALSE, FALSE, CPrint(a, st)), FALSE), B |-> BSeq[b]] :
              t \in {3, 4}, a \in ExtAsts, st \in {"min", "full"}, b \in {1, 7, 20, 33}}
-ASSUME LET S == SetToSeq(CasesA \cup CasesF \cup CasesW \cup CasesW2 \cup CasesW3 \cup CasesW4 \cup CasesB \cup CasesC)
+\* (C') an extended condition AND an explicit rules list that names the rules in another order than the condition
+\*      mentions them: the list is what orders the embedded queries
+Rev(q) == [i \in 1..Len(q) |-> q[Len(q) + 1 - i]]
+CasesC2 == {[c |-> [Corr(t, Rev(RefsOf(a)), 2, [count |-> 5, unit |-> 109], Cond("ext", "gte", 1, FALSE, FALSE, CPrint(a, "min")), FALSE) EXCEPT !.explicit = TRUE],
+             B |-> BSeq[b]] : t \in {3, 4}, a \in ExtAsts, b \in {1, 20}}
+ASSUME LET S == SetToSeq(CasesC2 \cup CasesA \cup CasesF \cup CasesW \cup CasesW2 \cup CasesW3 \cup CasesW4 \cup CasesB \cup CasesC)
        IN  ndJsonSerialize(IOEnv.VERIF_OUT, [i \in 1..Len(S) |-> [id |-> i] @@ S[i]])
 Init == x = 0
 Next == UNCHANGED x
